@@ -155,18 +155,21 @@ func TestGenC11(t *testing.T) {
 						fs, ss = "C", "S"
 					}
 					relay.setFailClose(faultyClose)
-					_ = first.conn.Close()
+					// "closed" is recorded when Close is CALLED: a Dial / Accept that waits for the previous connection
+					// is released inside that call (Done() is closed before Close returns) and may log its return
+					// first. One that does not wait at all returns when it is issued, long before this point.
 					mu.Lock()
 					first.closed = true
 					ev(fs, "closed %d", round-1)
 					mu.Unlock()
+					_ = first.conn.Close()
 					synctest.Wait()
 					time.Sleep(time.Duration(rr.intn(1500)) * time.Millisecond)
-					_ = second.conn.Close()
 					mu.Lock()
 					second.closed = true
 					ev(ss, "closed %d", round-1)
 					mu.Unlock()
+					_ = second.conn.Close()
 					synctest.Wait()
 					relay.setFailClose(false)
 				}
